@@ -842,6 +842,13 @@ func runHelperCase(c *core.Case, hc *helperCase) {
 		}
 		n := nreq
 		nreq++
+		e.delivering++
+		defer func() {
+			e.mu.Lock()
+			e.delivering--
+			e.mu.Unlock()
+			e.poke()
+		}()
 		p := &hc.Plans[n]
 		if nreq >= len(hc.Plans) {
 			silent = true
@@ -898,12 +905,15 @@ func runHelperCase(c *core.Case, hc *helperCase) {
 	// Wait until the helper returned, Serve ended, or the peer's last answer
 	// (or an unroutable one) has been dealt with by the serve loop.
 	e.wait(func() bool {
+		e.mu.Lock()
+		ls, sil, unr, busy := lastSentinel, silent, unroutable, e.delivering > 0
+		e.mu.Unlock()
+		if busy {
+			return false // the responder is in the middle of a (split) delivery
+		}
 		if a.finished() || e.served() {
 			return true
 		}
-		e.mu.Lock()
-		ls, sil, unr := lastSentinel, silent, unroutable
-		e.mu.Unlock()
 		return ls != "" && (sil || unr) && e.answered(ls)
 	}, "helper "+h.name, false)
 	if !a.finished() {
